@@ -401,10 +401,30 @@ class Check:
         self.rng = random.Random(("%s-%d" % (pid, seed)).encode())
         self.t0 = time.time()
         prepare_alt()
-        self.rundir = os.path.join(ALTDIR, "run", pid)
+        # one scratch directory per RUN (two runs of one property must not clobber each other's case files);
+        # `work/run/<pid>` is a link to the latest one; directories of finished runs older than a day are removed
+        runroot = os.path.join(ALTDIR, "run")
+        os.makedirs(runroot, exist_ok=True)
+        for d in os.listdir(runroot):
+            dp = os.path.join(runroot, d)
+            try:
+                if d.startswith(pid + ".") and os.path.isdir(dp) and not os.path.islink(dp) and time.time() - os.path.getmtime(dp) > 86400:
+                    shutil.rmtree(dp, ignore_errors=True)
+            except OSError:
+                pass
+        self.rundir = os.path.join(runroot, "%s.%s.%d" % (pid, tier, os.getpid()))
         if os.path.isdir(self.rundir):
             shutil.rmtree(self.rundir, ignore_errors=True)
         os.makedirs(self.rundir, exist_ok=True)
+        link = os.path.join(runroot, pid)
+        try:
+            if os.path.islink(link):
+                os.unlink(link)
+            elif os.path.isdir(link):
+                shutil.rmtree(link, ignore_errors=True)
+            os.symlink(self.rundir, link)
+        except OSError:
+            pass
         self.replaydir = os.path.join(ALTDIR, "replay")
         os.makedirs(self.replaydir, exist_ok=True)
         self.cov = {"evaluations": 0, "distinct_nontrivial": 0, "rule": "", "samples": [],
@@ -533,6 +553,8 @@ class Check:
         for k in known:
             if k["class"] in self.known_hit:
                 print("KNOWN-FINDING: property=%s %s" % (self.pid, k["what"]))
+        if not self.violations and not os.environ.get("VERIF_KEEP_RUNDIR"):
+            shutil.rmtree(self.rundir, ignore_errors=True)     # a clean run leaves nothing behind (logs of a failing one stay)
         for what, p, no_input in self.violations:
             log("violation:", what)
             print("VIOLATION property=%s replay=%s%s" % (self.pid, p, " no-failing-input-found" if no_input else ""))
